@@ -105,6 +105,17 @@ CHECKS.update({
    note="in-memory source/sink wrappers own every I/O call; values compared through a canonical rendering; data delivered before a stream read error must be a prefix of the real data", ref="5/C19"),
 })
 
+CHECKS.update({
+ "C04": dict(level="model_checking",
+   technique="exhaustive enumeration of revision histories x section kinds x renderings of an independent serialiser, every file opened by the real Reader and compared with a reference model of incremental updates",
+   text="All histories of 1 revision x 4 objects, 2 x 2, 2 x 4, 3 x 2 (thorough: 3 x 3) over {leave, define A, define B, free} with every vector of section kinds {table, xref stream, hybrid}; renderings: every single and (for small histories) every pair of knob values (bytes before the header 0/1/1019, 4 white-space/comment styles, 3 EOLs, hex strings, #-escaped names, split subsections and /Index, threaded free list, 6 /W arrays, object streams); Reader.Get for every object number at generations 0-2 and a never-mentioned number must give the newest definition or null; the newest trailer's entries are reported. /Length clause: 4 bodies x 11 length defects (absent, -1, +7, 2^40, negative, real, indirect to a correct/missing/dictionary/cyclic object) x renderings: data is delimited by the EOL before endstream and the next object is unaffected.",
+   note="files come from ref/pdffile's serialiser and are cross-read by ref/pdffile's reader in every case (disagreement = exit 2); hybrid sections list hidden objects only in /XRefStm; excluded per the statement: wrong lengths that point exactly at an endstream keyword", ref="5/C04"),
+ "C05": dict(level="exploration",
+   technique="deviation-bounded exhaustive mutation: every single structure-aware mutation (thorough: all pairs on structural keys) of every seed file at every position, walked in worker processes under panic/hang/allocation/goroutine oracles",
+   text="Seeds written by the real Writer (classic and xref-stream+object-stream files with a two-level page tree, text, Type 1 / CFF / TrueType fonts, outline, name tree, XMP; RC4 and AES-256 variants); mutation menu: every integer token -> 13 boundary values, every reference -> every other object / itself / missing, every name -> 24 structural names, token delete/duplicate/swap, every truncation offset, every byte of the xref/trailer region -> 5 values, stream body windows (raw and on the decoded bytes, re-encoded), object splices; each mutant is walked under the three error-handling modes and through SequentialScan+MakeReader: NewReader, Get of every entry, DecodeStream of every stream, page tree, pages, fonts and glyph data, content streams, outline: no panic, no hang (20 s, reproduced), allocation within budget, goroutines back to baseline.",
+   note="one mutation (two on structural keys in thorough) away from the seeds; errors of any kind are acceptable; hangs are attributed per case by the worker-process machinery", ref="5/C05"),
+})
+
 NOT_YET = {}
 
 def main():
